@@ -148,6 +148,14 @@ def main(run):
     for pr in probs:
         run.violation(f'merge|symbolic_append|{pr[:80]}', f'{P.where(ab) if ab else "path_mut.rs"} PathMutImpl::symbolic_append (the merge of RFC 3986 5.2.3): {pr}')
     run.floor('symbolic_append_paths', 3, 'paths of symbolic_append checked')
+    # the ambiguity clause: every non-merge branch ends with path_mut().normalize() on the reference — that the rewritten path, in the context
+    # it is written in (scheme / authority present or not), is read back as a PATH and as nothing else (no "//" taken for an authority, no
+    # first segment taken for a scheme) is the marked-language closure of the in-place rewrite over the two reference owners (Engine D3, the
+    # rule C09 applies to all owners)
+    from .. import sites, pathclosure
+    pst = pathclosure.check(run, run, P, sites.Ctx(P), ['uri::reference::UriRef', 'iri::reference::IriRef'], (), methods=('normalize',), run_kind=run)
+    run.cov['normalize_in_context_paths'] = pst['paths']
+    run.floor('normalize_in_context_paths', 10, 'symbolic paths of the in-place normalize checked inside a reference')
     npairs = sibling.check(run, P, 'C06', only=lambda n: re.search(r'resolve', n) is not None)
     run.floor('entry_points', 6, 'resolution entry points')
     n = run.cov.get('entry_points', 0) + run.cov.get('implementors', 0) + run.cov.get('resolve_paths', 0) + npairs
